@@ -184,3 +184,106 @@ def gen_wide(rng, n_errors=0):
         L.append("    rootBogus%d: true" % errors_left)
     L.append("}")
     return "\n".join(L) + "\n"
+
+
+ICON_STATES = ["normalOff", "normalOn", "disabledOff", "disabledOn", "activeOff", "activeOn", "selectedOff", "selectedOn"]
+
+
+def gen_mainwindow(rng, n_errors=0):
+    """a QMainWindow with menu bar, menus (explicit and implicit action lists, separators, nested menus, menuAction()),
+    tool bar, status bar, actions with icons (theme names and per-state pixmaps), shortcuts, checkable actions with
+    handlers, a central widget with splitter / stacked widget / tab widget, buddies, item models and list items"""
+    nact = rng.randint(3, 8)
+    acts = ["act%d" % i for i in range(nact)]
+    L = ["import qmluic.QtWidgets", "", "QMainWindow {", "    id: root", "    geometry { x: 0; y: 0; width: %d; height: %d }" % (rng.randint(300, 900), rng.randint(200, 700)),
+         "    windowTitle: %s" % rng.choice(['qsTr("Main %1").arg(pick.currentText)', docs._q(docs._s(rng)), 'pick.currentIndex === 0 ? qsTr("none") : pick.currentText'])]
+    if rng.chance(0.5):
+        L.append("    actions: []")
+    L += ["    QWidget {", "        id: central", "        QVBoxLayout {", "            QFormLayout {",
+          "                QLabel { text: qsTr(\"&Pick\"); buddy: pick }", "                QComboBox {", "                    id: pick",
+          "                    model: [%s]" % ", ".join(docs._q(docs._s(rng)) for _ in range(rng.randint(2, 6))),
+          "                    onTextHighlighted: function(s: QString) { statusbar.showMessage(s, %d); }" % rng.randint(100, 2000),
+          "                }"]
+    if rng.chance(0.6):
+        L += ["                QLabel { text: qsTr(\"&Name\"); buddy: nameEdit }", "                QLineEdit { id: nameEdit; placeholderText: qsTr(%s) }" % docs._q(docs._s(rng))]
+    L.append("            }")
+    cont = rng.choice(["QSplitter", "QStackedWidget", "QTabWidget"])
+    L.append("            %s {" % cont)
+    if cont == "QStackedWidget":
+        L.append("                currentIndex: pick.currentIndex")
+    if cont == "QSplitter":
+        L += ["                sizePolicy.horizontalPolicy: QSizePolicy.Expanding", "                sizePolicy.verticalPolicy: QSizePolicy.Expanding"]
+    for k in range(rng.randint(2, 4)):
+        kind = rng.choice(["QPlainTextEdit", "QListWidget", "QToolButton", "QWidget", "QTreeWidget"])
+        L.append("                %s {" % kind)
+        L.append("                    id: page%d" % k)
+        if cont == "QTabWidget":
+            L.append("                    QTabWidget.title: %s" % docs._q(docs._s(rng)))
+            if rng.chance(0.5):
+                L.append("                    QTabWidget.toolTip: %s" % docs._q(docs._s(rng)))
+        if kind == "QPlainTextEdit":
+            L += ["                    font.family: \"Monospace\"", "                    readOnly: %s" % rng.choice(["true", "pick.currentIndex > %d" % rng.randint(0, 3)]),
+                  "                    lineWrapMode: QPlainTextEdit.NoWrap"]
+        if kind == "QToolButton":
+            states = rng.sample(ICON_STATES, rng.randint(2, 6))
+            for st in states:
+                L.append("                    icon.%s: \"%s-%d.png\"" % (st, st.lower(), k))
+            L.append("                    onClicked: %s.trigger()" % rng.choice(acts))
+        L.append("                }")
+    L += ["            }", "        }", "    }", "    QMenuBar {", "        id: menubar"]
+    for m in range(rng.randint(1, 3)):
+        L.append("        QMenu {")
+        L.append("            title: qsTr(%s)" % docs._q("&M%d %s" % (m, docs._s(rng))))
+        if rng.chance(0.5):
+            chosen = rng.sample(acts, rng.randint(1, min(4, nact)))
+            if rng.chance(0.5):
+                chosen.insert(rng.randint(0, len(chosen)), "sep0")
+            L.append("            actions: [%s]" % ", ".join(chosen))
+        else:
+            L.append("            QAction { id: inl%d; text: qsTr(%s); icon.normalOff: \"i%d.png\" }" % (m, docs._q(docs._s(rng)), m))
+            if rng.chance(0.5):
+                L.append("            QAction { separator: true }")
+            if rng.chance(0.5):
+                L += ["            QMenu {", "                id: sub%d" % m, "                title: qsTr(%s)" % docs._q(docs._s(rng)),
+                      "                QAction { text: qsTr(%s) }" % docs._q(docs._s(rng)), "            }"]
+        L.append("        }")
+    L.append("    }")
+    if rng.chance(0.7):
+        tb = rng.sample(acts, rng.randint(1, min(5, nact)))
+        tb.insert(rng.randint(0, len(tb)), "sep0")
+        L += ["    QToolBar {", "        actions: [%s]" % ", ".join(tb), "    }"]
+    L.append("    QStatusBar { id: statusbar }")
+    for i, a in enumerate(acts):
+        L.append("    QAction {")
+        L.append("        id: %s" % a)
+        props = ["text: qsTr(%s)" % docs._q("&" + docs._s(rng))]
+        if rng.chance(0.5):
+            props.append("icon.name: %s" % docs._q(rng.choice(["document-open", "edit-undo", "edit-redo", "help-about"])))
+        elif rng.chance(0.4):
+            for st in rng.sample(ICON_STATES, rng.randint(2, 4)):
+                props.append("icon.%s: \"%s-%s.png\"" % (st, a, st.lower()))
+        if rng.chance(0.4):
+            props.append("shortcut: %s" % rng.choice(['"Ctrl+%s"' % chr(65 + i), "QKeySequence.Open", '"Ctrl+X, Ctrl+%s"' % chr(65 + i)]))
+        if rng.chance(0.3):
+            props.append("checkable: true")
+        if rng.chance(0.3):
+            props.append("enabled: %s" % rng.choice(["false", "pick.currentIndex > 0"]))
+        if rng.chance(0.3):
+            props.append("toolTip: %s" % docs._q(docs._s(rng)))
+        if rng.chance(0.4):
+            props.append("onTriggered: %s" % rng.choice(["root.close()", "console.log(%s)" % docs._q(docs._s(rng)), "statusbar.showMessage(qsTr(\"triggered\"), 500)"]))
+        if rng.chance(0.2):
+            props.append("onToggled: function(on: bool) { statusbar.showMessage(on ? \"on\" : \"off\", 100) }")
+        while n_errors > 0 and rng.chance(0.4):
+            n_errors -= 1
+            props.append(rng.choice(["bogus%d: 1" % n_errors, "onNoSignal%d: console.log(1)" % n_errors, "icon.bogus%d: \"x\"" % n_errors]))
+        rng.shuffle(props)
+        for p in props:
+            L.append("        " + p)
+        L.append("    }")
+    L += ["    QAction {", "        id: sep0", "        separator: true", "    }"]
+    while n_errors > 0:
+        n_errors -= 1
+        L.append("    rootBogus%d: true" % n_errors)
+    L.append("}")
+    return "\n".join(L) + "\n"
